@@ -26,7 +26,16 @@ func VisitOps(evs []Op, f func(*int64)) {
 					f(&e.Srcs[k].Gm.V)
 				}
 			}
+			if len(e.Parts) > 0 {
+				VisitOps(e.Parts, f)
+			}
 			if e.Resp != nil {
+				for k := range e.Resp.Parts {
+					if pr := e.Resp.Parts[k].Resp; pr != nil {
+						f(&pr.Hgen)
+						visitView(&pr.View, f)
+					}
+				}
 				f(&e.Resp.Hgen)
 				visitView(&e.Resp.View, f)
 				for p := range e.Resp.Pages {
